@@ -63,6 +63,9 @@ def run(prop, tier, seed):
         items = []
         for rep in range(1 if not big else 12):
             items += [concretise(rnd, cf) for cf in cfgs]
+        # extra: interactive entry with a very long run of rejected answers before the accepted ones
+        for fl in ([], ["-2"], ["-3"], ["-4"]):
+            items.append({"args": [esc(a) for a in fl], "stdin": [esc(a) for a in ["junk"] * 1300 + (UNIVERSAL * 40)[:400]]})
         # extra: valid vectors of every version under every single version flag with and without -j
         for _ in range(150 if not big else 4000):
             ver = rnd.choice("234")
